@@ -1,4 +1,5 @@
 import TFV.Properties.Select
+import TFV.Properties.Src.Bsearch
 #print axioms TFV.Select.C11_bsearch_eq_firstGe
 #print axioms TFV.Select.C11_bsearch_interval
 #print axioms TFV.Select.C11_weight_positive
@@ -15,3 +16,6 @@ import TFV.Properties.Select
 #print axioms TFV.Select.C11_sattolo_no_fixed_point
 #print axioms TFV.Select.C11_pbest
 #print axioms TFV.Select.C11_minmax
+#print axioms TFV.SrcTie.C11_src_binary_search_interval
+#print axioms TFV.SrcTie.C11_src_check_for_value
+#print axioms TFV.SrcTie.C11_src_argsort_k
